@@ -13,7 +13,7 @@ use std::sync::Arc;
 
 pub struct C01;
 
-const N_HEAVY: u64 = 7;
+const N_HEAVY: u64 = 8;
 
 fn heavy(kind: u64, rng: &mut Rng) -> (Comp, Vec<ContentSpec>, bool, &'static str) {
     let mk = |bytes: Vec<u8>, hint: Hint, src: SrcKind| ContentSpec {
@@ -81,6 +81,14 @@ fn heavy(kind: u64, rng: &mut Rng) -> (Comp, Vec<ContentSpec>, bool, &'static st
             false,
             "raw cluster of 16 MiB + 1 (offset width 3 -> 4 bytes)",
         ),
+        // more than 4096 clusters in one pack (the cluster index of a content address has 20 bits,
+        // the blob index 12): every content in its own cluster (cluster limit knob = 1 blob)
+        7 => (
+            Comp::Lz4(1),
+            (0..4200).map(|i| mk(vec![b'a' + (i % 26) as u8; 1 + i % 3], if i % 2 == 0 { Hint::No } else { Hint::Yes }, SrcKind::Cursor)).collect(),
+            false,
+            "4200 contents in 4200 clusters (cluster index above 12 bits)",
+        ),
         // offset width 2 -> 3 bytes (65535 / 65536) in raw and compressed clusters
         _ => (
             Comp::Lzma(0),
@@ -94,6 +102,90 @@ fn heavy(kind: u64, rng: &mut Rng) -> (Comp, Vec<ContentSpec>, bool, &'static st
             false,
             "clusters at the 65535 / 65536 offset-width boundary",
         ),
+    }
+}
+
+/// One uncompressed cluster of more than 4 GiB: small, big (sparse file with markers), small,
+/// small. Everything is read back through the addresses insertion returned.
+fn four_gib_cluster(dir: &Path, rep: &mut BodyReport) {
+    use jubako::creator::ContentAdder;
+    use jubako::Pack;
+    use std::io::{Seek, SeekFrom, Write};
+    const BIG: u64 = (1u64 << 32) + 1000;
+    let marks: [u64; 6] = [0, 1 << 31, (1 << 32) - 4, (1 << 32) + 500, BIG - 8, 123_456_789];
+    let mark = |k: usize| -> [u8; 8] {
+        let mut m = *b"MARK0000";
+        m[7] = b'0' + k as u8;
+        m
+    };
+    let big_path = dir.join("big.bin");
+    let pack_path = dir.join("big.jbkc");
+    let _ = std::fs::remove_file(&pack_path);
+    let r: Result<(), String> = (|| {
+        let mut f = std::fs::File::create(&big_path).map_err(|e| e.to_string())?;
+        f.set_len(BIG).map_err(|e| e.to_string())?;
+        for (k, off) in marks.iter().enumerate() {
+            f.seek(SeekFrom::Start(*off)).map_err(|e| e.to_string())?;
+            f.write_all(&mark(k)).map_err(|e| e.to_string())?;
+        }
+        drop(f);
+        let utf8 = jubako::Utf8PathBuf::from(pack_path.to_str().unwrap());
+        let mut creator = jubako::creator::ContentPackCreator::new(
+            &utf8,
+            jubako::PackId::from(1),
+            jubako::VendorId::from(gen::VENDOR),
+            Default::default(),
+            jubako::creator::Compression::None,
+        )
+        .map_err(|e| format!("ContentPackCreator::new: {e}"))?;
+        let smalls: [&[u8]; 3] = [b"first small content", b"stored after the four GiB line", b"and the last one"];
+        let mut ids = vec![];
+        let a = creator.add_content(Box::new(std::io::Cursor::new(smalls[0].to_vec())), jubako::creator::CompHint::No).map_err(|e| format!("add small: {e}"))?;
+        ids.push(a.content_id);
+        let input = jubako::creator::InputFile::open(&big_path).map_err(|e| e.to_string())?;
+        let a = creator.add_content(Box::new(input), jubako::creator::CompHint::No).map_err(|e| format!("add big: {e}"))?;
+        ids.push(a.content_id);
+        for s in &smalls[1..] {
+            let a = creator.add_content(Box::new(std::io::Cursor::new(s.to_vec())), jubako::creator::CompHint::No).map_err(|e| format!("add small: {e}"))?;
+            ids.push(a.content_id);
+        }
+        creator.finalize().map_err(|e| format!("finalize: {e}"))?;
+        let reader: jubako::Reader = jubako::FileSource::open(&pack_path).map_err(|e| e.to_string())?.into();
+        let pack = jubako::reader::ContentPack::new(reader).map_err(|e| format!("ContentPack::new: {}", simcore::dump::err_class(&e)))?;
+        if pack.get_content_count().into_u64() != 4 {
+            return Err(format!("pack reports {} contents, 4 were stored", pack.get_content_count().into_u64()));
+        }
+        let expect_small = [smalls[0], smalls[1], smalls[2]];
+        for (k, id) in [ids[0], ids[2], ids[3]].into_iter().enumerate() {
+            let region = pack.get_content(id).map_err(|e| format!("small content {k}: {}", simcore::dump::err_class(&e)))?.ok_or(format!("small content {k}: no such content"))?;
+            let got = simcore::dump::read_region(&region)?;
+            if got != expect_small[k] {
+                return Err(format!("small content {k} reads {:?}", String::from_utf8_lossy(&got[..got.len().min(16)])));
+            }
+        }
+        let region = pack.get_content(ids[1]).map_err(|e| format!("big content: {}", simcore::dump::err_class(&e)))?.ok_or("big content: no such content")?;
+        if region.size().into_u64() != BIG {
+            return Err(format!("big content has size {} instead of {BIG}", region.size().into_u64()));
+        }
+        for (k, off) in marks.iter().enumerate() {
+            let s = region.get_slice(jubako::Offset::from(*off), 8).map_err(|e| format!("big content, slice at {off}: {}", simcore::dump::err_class(&e)))?;
+            if s[..] != mark(k) {
+                return Err(format!("big content: bytes at {off} are {:?}, not marker {k}", &s[..]));
+            }
+        }
+        match pack.get_content(jubako::ContentIdx::from(4u32)) {
+            Ok(None) => {}
+            _ => return Err("address 4 past the count does not answer 'no such content'".into()),
+        }
+        match pack.check() {
+            Ok(true) => Ok(()),
+            other => Err(format!("check() of the pack: {:?}", other.map_err(|e| simcore::dump::err_class(&e)))),
+        }
+    })();
+    let _ = std::fs::remove_file(&big_path);
+    let _ = std::fs::remove_file(&pack_path);
+    if let Err(e) = r {
+        rep.complaints.push(format!("cluster above 4 GiB: {e}"));
     }
 }
 
@@ -113,13 +205,37 @@ impl TCheck for C01 {
             Tier::Thorough => 32,
         }
     }
-    fn prepare(&self, seed: u64, _tier: Tier, work: u64, scratch: &Path) -> Prepared {
+    fn prepare(&self, seed: u64, tier: Tier, work: u64, scratch: &Path) -> Prepared {
         let mut rng = Rng::derive(seed, "c01-work", work);
         let dir = scratch.join(format!("w{work}"));
         std::fs::create_dir_all(&dir).unwrap();
+        if tier == Tier::Thorough && work == N_HEAVY {
+            // a raw cluster that crosses 2^32 bytes (the 4-byte offset width boundary): a sparse
+            // file of 4 GiB + 1000 bytes between small contents, one schedule
+            let dir2 = dir.clone();
+            return Prepared {
+                desc: json!({"boundary_workload": "one raw cluster above 4 GiB (sparse file source with markers), contents stored after it", "comp": "none"}),
+                knobs: vec![("creator_workers", 1u64), ("decomp_pool_size", 2u64)],
+                body: Arc::new(move |slot: &Slot| {
+                    let mut rep = BodyReport::default();
+                    four_gib_cluster(&dir2, &mut rep);
+                    rep.notes.insert("boundary_workloads".into(), 1);
+                    rep.notes.insert("cluster_above_4GiB".into(), 1);
+                    *slot.lock().unwrap() = rep;
+                }),
+                record_events: false,
+                hard_fault: false,
+                one_cpu: false,
+                post: None,
+                max_scheds: Some(1),
+            };
+        }
         if work < N_HEAVY {
             let (comp, contents, dedup, what) = heavy(work, &mut rng);
-            let knobs = vec![("creator_workers", rng.range(1, 4)), ("decomp_pool_size", 2u64)];
+            let mut knobs = vec![("creator_workers", rng.range(1, 4)), ("decomp_pool_size", 2u64)];
+            if work == 7 {
+                knobs.push(("cluster_max_blobs", 1));
+            }
             let w = Arc::new(Work {
                 comp,
                 contents,
@@ -131,7 +247,7 @@ impl TCheck for C01 {
             });
             let w2 = Arc::clone(&w);
             return Prepared {
-                desc: json!({"boundary_workload": what, "comp": comp.name(), "contents": w.contents.len(), "dedup": dedup, "limits": "shipped (4095 blobs / 4 MiB)"}),
+                desc: json!({"boundary_workload": what, "comp": comp.name(), "contents": w.contents.len(), "dedup": dedup, "limits": if work == 7 { "one blob per cluster" } else { "shipped (4095 blobs / 4 MiB)" }}),
                 knobs,
                 body: Arc::new(move |slot: &Slot| {
                     let mut rep = BodyReport::default();
@@ -143,6 +259,7 @@ impl TCheck for C01 {
                 hard_fault: false,
                 one_cpu: false,
                 post: None,
+                max_scheds: None,
             };
         }
         let comp = *rng.pick(&[
@@ -281,6 +398,7 @@ impl TCheck for C01 {
                 hard_fault: false,
                 one_cpu: false,
                 post: None,
+                max_scheds: None,
             }
         } else {
             let w = Arc::new(Work {
@@ -310,6 +428,7 @@ impl TCheck for C01 {
                 hard_fault: false,
                 one_cpu: false,
                 post: None,
+                max_scheds: None,
             }
         }
     }
